@@ -13,7 +13,8 @@ EXTENDS AssemblyRef, FiniteSetsExt, SequencesExt, TLC, Json
 
 CONSTANTS EqIds,      \* set of equation ids (domain of EqCat)
           VarGroups,  \* sequence of vid sets: the variable arguments offered (by name, md-variable, atomic)
-          GridChoices \* for restrictions: set of "all" "none" "first" "last" "ends"
+          GridChoices, \* for restrictions: set of "all" "none" "first" "last" "ends"
+          MaxVarGroups \* bound on the number of variable arguments in one selection (quick tier: 2)
 
 VARIABLES stage, cs
 evars == <<stage, cs>>
@@ -43,7 +44,7 @@ RestrSels(reg) ==
 \* ascending and in descending order; <<>> stands for "all variables"
 Disjoint(T) == \A g1, g2 \in T : g1 # g2 => VarGroups[g1] \cap VarGroups[g2] = {}
 Asc(T) == SetToSortSeq(T, <)
-VarSels == {<<>>} \cup UNION {{Asc(T), Reverse(Asc(T))} : T \in {X \in SUBSET (1..Len(VarGroups)) : X # {} /\ Disjoint(X)}}
+VarSels == {<<>>} \cup UNION {{Asc(T), Reverse(Asc(T))} : T \in {X \in SUBSET (1..Len(VarGroups)) : X # {} /\ Cardinality(X) <= MaxVarGroups /\ Disjoint(X)}}
 
 Init == stage = "hist" /\ cs = [hist |-> <<>>, sel |-> <<>>, selall |-> TRUE, vsel |-> <<>>, vselall |-> TRUE]
 PickHist == /\ stage = "hist" /\ stage' = "sel"
